@@ -8,6 +8,9 @@ import (
 )
 
 func (vx *Vaxis) applyQuirks() {
+	// the input goroutine reads caps (under mu) while New is still running
+	vx.mu.Lock()
+	defer vx.mu.Unlock()
 	id := string(vx.termID)
 	switch {
 	case strings.HasPrefix(id, "kitty"):
